@@ -22,7 +22,7 @@ glom = env.bind()
 import glom as g  # noqa: E402
 from glom import (T, S, A, GlomError, PathAccessError, CoalesceError, UnregisteredTarget, BadSpec, PathAssignError,  # noqa: E402
                   PathDeleteError, FoldError, MatchError, TypeMatchError, CheckError, Coalesce, Match, Check, Fold, Sum,
-                  Flatten, Merge, Assign, Delete, Spec, M, Switch, Or, And, Not, Val, Iter, Path, glom as G)
+                  Flatten, Merge, Assign, Delete, Spec, M, Switch, Or, And, Not, Val, Iter, Path, Auto, glom as G)
 from glom.grouping import Group, Limit  # noqa: E402
 
 META = {
@@ -615,6 +615,10 @@ class Unreg:
 _Pair = namedtuple('_Pair', 'first second')
 
 
+class _SlotLeaf:
+    __slots__ = ()
+
+
 def glom_detected(col):
     """every documented failure kind, provoked directly, under the whole matrix"""
     table = [
@@ -655,6 +659,17 @@ def glom_detected(col):
         ('assign value T fails, missing= given', {'a': {}}, Assign('a.b', T['nope'], missing=dict), PathAccessError),
         ('assign value spec fails', {'a': {}}, Assign('a.b', Spec('x.y')), PathAccessError),
     ]
+    # ... and the same kinds of failure AFTER wildcard walks have visited leaves of those very types (what a walk learns about a type
+    # must not change what a later list spec / reduction says about it)
+    import datetime, decimal, uuid
+    leaves = [datetime.date(2020, 1, 2), decimal.Decimal('1.5'), uuid.UUID(int=7), _SlotLeaf(), object(), 2.5, None, 5, True, 'text', b'bytes']
+    for walk in ('*', '**', T.__star__(), Path('box', T.__starstar__())):
+        call_base(G, {'box': {'leaves': list(leaves), 'pair': tuple(leaves[:3])}}, walk)
+    for leaf in leaves:
+        tn = type(leaf).__name__
+        table += [('unregistered iterate after a walk: ' + tn, leaf, ['x'], UnregisteredTarget), ('Iter of a leaf after a walk: ' + tn, leaf, (Iter(), list), UnregisteredTarget),
+                  ('Sum of a leaf after a walk: ' + tn, leaf, Sum(), FoldError), ('Flatten below a path after a walk: ' + tn, {'v': leaf}, Flatten('v'), FoldError),
+                  ('Merge of a leaf after a walk: ' + tn, leaf, Merge(), FoldError)]
     for name, target, spec, cls in table:
         for cell, kw in matrix(ValueError()):
             if cell[1] in ('type', 'base', 'tuple'):
@@ -693,6 +708,10 @@ def faults_inside_other_constructs(col, rng, n_exc):
         ('binder-value', lambda: (S(x=Spec(f)), S.x)), ('Assign-value-spec', lambda: Assign('d.new', Spec(f))),
         ('Ref-body', lambda: Ref('r', (T, f))), ('Pipe-last', lambda: Pipe(T, T, f)), ('dict-value-after-chain', lambda: ('d', {'k': ('lst', f)})),
         ('list-element-after-chain', lambda: ('d', 'lst', [f])), ('Spec-glom-entry', lambda: Spec((T, f))),
+        # Match-mode sequence / set patterns try their alternatives per item; the error of the last alternative is what is raised
+        ('Match-list-only-alternative', lambda: Match([Auto(f)])), ('Match-list-last-alternative', lambda: Match([M == 'never', Auto(f)])),
+        ('Match-list-in-Or-last-child', lambda: Match(Or(M == 'never', [Auto(f)]))), ('Match-tuple-member', lambda: Match((int, Auto(f), int))),
+        ('Match-dict-value', lambda: ('d', Match({'k': Auto(f), 'lst': list}))),
     ]
     always = [c for c in CATALOGUE if c[0] in ('ValueError', 'KeyError', 'IndexError', 'StopIteration', 'MyGlomErrPrefix', 'FalsyErr', 'SizedErr', 'FalsyGlomErr',
                                                'ImportError(package path)', 'ValueError(multi-line)')]
@@ -703,12 +722,18 @@ def faults_inside_other_constructs(col, rng, n_exc):
                 continue      # the iterator protocol reserves StopIteration: inside map / filter / next() it ends the stream (as in plain Python)
             if isinstance(probe, GlomError) and name == 'Switch-key-auto':
                 continue      # a key spec failing with a GlomError is "this case does not apply", by design
+            if name == 'Match-dict-value':
+                pass
             for cell, kw in matrix(probe):
                 e = mkexc()
                 f.exc = e
-                target = [3, 1, 2] if name.split('-')[0] in ('First', 'Iter', 'Iter.first', 'Iter.map', 'Iter.filter', 'Iter.takewhile', 'Iter.unique', 'Fold', 'Sum',
+                target = [3, 1, 2] if name.split('-')[0] in ('Match', 'First', 'Iter', 'Iter.first', 'Iter.map', 'Iter.filter', 'Iter.takewhile', 'Iter.unique', 'Fold', 'Sum',
                                                             'Flatten', 'Merge', 'Group') and 'chained' not in name and 'after' not in name \
                     else {'d': {'k': 1, 'lst': [3, 1, 2]}}
+                if name == 'Match-tuple-member':
+                    target = (3, 1, 2)
+                elif name == 'Match-dict-value':
+                    target = {'d': {'k': 1, 'lst': [3, 1, 2]}}
                 got = call_base(G, target, mk(), **kw)
                 col.case(('construct-position', name, ename, cell), True)
                 col.count('faults_injected')
